@@ -31,13 +31,29 @@ fn run_long(rec: &mut Rec, d: &Value) {
             last = Some(p);
             n += 1;
         }
-        (n, first, last)
+        // random access: nth(k) against the k-th item pulled with next(), and the length of what follows
+        let mut nth = vec![];
+        for k in [0usize, 1, n / 3, n / 2, n.saturating_sub(1), n, n + 5] {
+            let by_next = Line::new(s, e).points().take(k + 1).last().filter(|_| k < n);
+            let mut it = Line::new(s, e).points();
+            let by_nth = it.nth(k);
+            let rest = it.count();
+            let pj = |p: Option<Point>| p.map(pt_json).unwrap_or(json!([]));
+            nth.push(json!([k, pj(by_nth), pj(by_next), rest]));
+        }
+        // strokes: only the number of pixels (width 1 is the thin line; a wider stroke has at least as many)
+        let mut strokes = vec![];
+        for w in [1u32, 3] {
+            let c = Line::new(s, e).into_styled(PrimitiveStyle::with_stroke(BinaryColor::On, w)).pixels().take(40 * (m + 66)).count();
+            strokes.push(json!([w, c]));
+        }
+        (n, first, last, nth, strokes)
     });
     match r {
-        Ok((n, first, last)) => {
+        Ok((n, first, last, nth, strokes)) => {
             rec.nontrivial();
             let pj = |p: Option<Point>| p.map(pt_json).unwrap_or(json!([]));
-            rec.ev("longline", json!({"s": pt_json(s), "e": pt_json(e), "np": n, "first": pj(first), "last": pj(last)}));
+            rec.ev("longline", json!({"s": pt_json(s), "e": pt_json(e), "np": n, "first": pj(first), "last": pj(last), "nth": nth, "strokes": strokes}));
         }
         Err(p) => {
             rec.note("panicked_cases");
